@@ -141,13 +141,13 @@ func c03causal(cs *h.Case) {
 	}
 }
 
-// c03hangDump: development aid (opt-in, environment variable C03_HANGDUMP=<directory>): a case that is
-// still running after 30 s writes the stacks of all its goroutines there before the framework's
-// time-out kills it.
+// c03hangDump: diagnostic aid: a case that is still running after 30 s writes the stacks of all its
+// goroutines to <C03_HANGDUMP or the temporary directory>/c03-hang-<pid>.txt before the framework's
+// 40 s time-out kills it and reports `hang` (nothing reads these files).
 func c03hangDump(cs *h.Case) func() {
 	dir := os.Getenv("C03_HANGDUMP")
 	if dir == "" {
-		return func() {}
+		dir = os.TempDir()
 	}
 	t := time.AfterFunc(30*time.Second, func() {
 		buf := make([]byte, 1<<20)
